@@ -428,6 +428,47 @@ static expression_t parse_plain_expr(Document& doc, const std::string& text, boo
     return b.getExpressions()[0];
 }
 
+static void laws(const expression_t& e)
+{
+                    // clone_deeper: equal, shares no node; mutation isolated
+                    expression_t cl = e.clone_deeper();
+                    printf("clone_equal %d\n", e.equal(cl) && cl.equal(e));
+                    printf("clone_tree_same %d\n", expr_s(e) == expr_s(cl));
+                    // node sharing: compare identities via operator== (pointer equality) over all node pairs on the same path
+                    struct W {
+                        static void nodes(const expression_t& x, std::vector<expression_t>& out) { if (x.empty()) return; out.push_back(x); for (size_t i = 0; i < x.get_size(); ++i) nodes(x.get(i), out); }
+                    };
+                    std::vector<expression_t> n1, n2;
+                    W::nodes(e, n1); W::nodes(cl, n2);
+                    int shared = 0;
+                    for (auto& a : n1) for (auto& b : n2) if (a == b) ++shared;
+                    printf("clone_shared_nodes %d of %zu\n", shared, n1.size());
+                    // get_size vs accessible children
+                    int badsize = 0;
+                    for (auto& a : n1) { size_t n = a.get_size(); for (size_t i = 0; i < n; ++i) { if (a.get(i).empty() && false) ++badsize; } }
+                    printf("nodes %zu\n", n1.size());
+                    // mutation isolation: change type of every node of the clone, original's dump must not change
+                    std::string before = expr_s(e) + "|" + safe_str(e);
+                    if (n2.size() > 1) { n2.back().set_type(type_t::create_primitive(Constants::VOID_TYPE)); if (cl.get_size() > 0) cl[0] = expression_t::create_constant(424242); }
+                    printf("mutation_isolated %d\n", before == expr_s(e) + "|" + safe_str(e));
+                    // equality laws
+                    printf("equal_refl %d\n", e.equal(e));
+                    // substitution
+                    std::set<symbol_t> syms;
+                    e.get_symbols(syms);
+                    std::vector<symbol_t> sv(syms.begin(), syms.end());
+                    std::sort(sv.begin(), sv.end(), [](const symbol_t& a, const symbol_t& b) { return a.get_name() < b.get_name(); });
+                    for (auto& s : sv) {
+                        std::string orig = expr_s(e);
+                        expression_t id = e.subst(s, expression_t::create_identifier(s));
+                        printf("subst_self %s %d\n", s.get_name().c_str(), id.equal(e));
+                        expression_t k = e.subst(s, expression_t::create_constant(777));
+                        printf("subst_unchanged %s %d\n", s.get_name().c_str(), orig == expr_s(e));
+                        printf("subst_tree %s %s\n", s.get_name().c_str(), expr_s(k).c_str());
+                    }
+                
+}
+
 static void run_case(const std::string& id, bool newxta, std::vector<Cmd>& cmds)
 {
     auto doc = std::make_unique<Document>();
@@ -501,44 +542,7 @@ static void run_case(const std::string& id, bool newxta, std::vector<Cmd>& cmds)
                     // printing after type annotation must not change
                     printf("str_after_tc %d\n", safe_str(e) == s1 ? 1 : 0);
                 }
-                if (c.op == "LAWS" && !e.empty() && e1 == e0) {
-                    // clone_deeper: equal, shares no node; mutation isolated
-                    expression_t cl = e.clone_deeper();
-                    printf("clone_equal %d\n", e.equal(cl) && cl.equal(e));
-                    printf("clone_tree_same %d\n", expr_s(e) == expr_s(cl));
-                    // node sharing: compare identities via operator== (pointer equality) over all node pairs on the same path
-                    struct W {
-                        static void nodes(const expression_t& x, std::vector<expression_t>& out) { if (x.empty()) return; out.push_back(x); for (size_t i = 0; i < x.get_size(); ++i) nodes(x.get(i), out); }
-                    };
-                    std::vector<expression_t> n1, n2;
-                    W::nodes(e, n1); W::nodes(cl, n2);
-                    int shared = 0;
-                    for (auto& a : n1) for (auto& b : n2) if (a == b) ++shared;
-                    printf("clone_shared_nodes %d of %zu\n", shared, n1.size());
-                    // get_size vs accessible children
-                    int badsize = 0;
-                    for (auto& a : n1) { size_t n = a.get_size(); for (size_t i = 0; i < n; ++i) { if (a.get(i).empty() && false) ++badsize; } }
-                    printf("nodes %zu\n", n1.size());
-                    // mutation isolation: change type of every node of the clone, original's dump must not change
-                    std::string before = expr_s(e) + "|" + safe_str(e);
-                    if (n2.size() > 1) { n2.back().set_type(type_t::create_primitive(Constants::VOID_TYPE)); if (cl.get_size() > 0) cl[0] = expression_t::create_constant(424242); }
-                    printf("mutation_isolated %d\n", before == expr_s(e) + "|" + safe_str(e));
-                    // equality laws
-                    printf("equal_refl %d\n", e.equal(e));
-                    // substitution
-                    std::set<symbol_t> syms;
-                    e.get_symbols(syms);
-                    std::vector<symbol_t> sv(syms.begin(), syms.end());
-                    std::sort(sv.begin(), sv.end(), [](const symbol_t& a, const symbol_t& b) { return a.get_name() < b.get_name(); });
-                    for (auto& s : sv) {
-                        std::string orig = expr_s(e);
-                        expression_t id = e.subst(s, expression_t::create_identifier(s));
-                        printf("subst_self %s %d\n", s.get_name().c_str(), id.equal(e));
-                        expression_t k = e.subst(s, expression_t::create_constant(777));
-                        printf("subst_unchanged %s %d\n", s.get_name().c_str(), orig == expr_s(e));
-                        printf("subst_tree %s %s\n", s.get_name().c_str(), expr_s(k).c_str());
-                    }
-                }
+                if (c.op == "LAWS" && !e.empty() && e1 == e0) laws(e);
             } else if (c.op == "QUERY") {
                 // acceptance by the query back end (scope of C03), then the raw query tree and its round trip
                 size_t e0 = doc->get_errors().size();
@@ -579,6 +583,27 @@ static void run_case(const std::string& id, bool newxta, std::vector<Cmd>& cmds)
                         }
                     }
                 }
+                doc->clear_errors();
+            } else if (c.op == "PAIR") {
+                // two expressions separated by a NUL byte: equal() in both directions
+                size_t z = c.data.find('\0');
+                bool ok1, ok2; size_t n1, n2;
+                expression_t a = parse_plain_expr(*doc, c.data.substr(0, z), newxta, ok1, n1);
+                expression_t b = parse_plain_expr(*doc, c.data.substr(z + 1), newxta, ok2, n2);
+                printf("parse errors=%zu\n", doc->get_errors().size());
+                if (!a.empty() && !b.empty() && doc->get_errors().empty()) {
+                    printf("tree1 %s\ntree2 %s\n", expr_s(a).c_str(), expr_s(b).c_str());
+                    printf("equal12 %d\nequal21 %d\n", a.equal(b) ? 1 : 0, b.equal(a) ? 1 : 0);
+                    expression_t ca = a.clone_deeper();
+                    printf("equal_clone2 %d\n", ca.equal(b) ? 1 : 0);     // transitivity witness: clone(a) ~ a ~ b
+                    printf("streq %d\n", safe_str(a) == safe_str(b) ? 1 : 0);
+                }
+                doc->clear_errors();
+            } else if (c.op == "QLAWS") {
+                std::string exc; int r;
+                expression_t q = parse_raw_query(*doc, c.data, exc, r);
+                printf("parse ret=%d errors=%zu%s%s\n", r, doc->get_errors().size(), exc.empty() ? "" : " exc=", esc(exc).c_str());
+                if (!q.empty() && doc->get_errors().empty() && exc.empty()) { printf("tree %s\n", expr_s(q).c_str()); laws(q); }
                 doc->clear_errors();
             } else if (c.op == "PRETTY") {
                 std::ostringstream os;
@@ -623,7 +648,7 @@ int main(int argc, char** argv)
             Cmd c;
             ls >> c.op;
             if (c.op == "MODEL" || c.op == "PART" || c.op == "PRETTY") { size_t n = 0; ls >> c.arg >> n; c.data = read_bytes(n); }
-            else if (c.op == "EXPR" || c.op == "TEXPR" || c.op == "RT" || c.op == "LAWS" || c.op == "PRETTYQ") { size_t n = 0; ls >> n; c.data = read_bytes(n); }
+            else if (c.op == "EXPR" || c.op == "TEXPR" || c.op == "RT" || c.op == "LAWS" || c.op == "PRETTYQ" || c.op == "PAIR" || c.op == "QLAWS") { size_t n = 0; ls >> n; c.data = read_bytes(n); }
             else if (c.op == "QUERY") { size_t n = 0; std::string a; ls >> a; if (isdigit((unsigned char)a[0])) { n = atol(a.c_str()); } else { c.arg = a; ls >> n; } c.data = read_bytes(n); }
             else ls >> c.arg;
             cmds.push_back(std::move(c));
